@@ -34,7 +34,7 @@ class Ob:
     def __init__(self, name, harness, units=(), models=(), defines=None, unit_defines=None,
                  unit_includes=(), remove=(), unwind=None, unwindset=(), restrict=(), flags=(),
                  timeout=300, mem_gb=6, kfs=(), kf_cover=True, tier='quick', note='', leak=False,
-                 restrict_by=(), unwind_violation=False, statement='', bounds='', expect_covers=True, solver=None,
+                 restrict_by=(), kf_only=False, unwind_violation=False, statement='', bounds='', expect_covers=True, solver=None,
                  object_bits=10, malloc_may_fail=False, native_libs=('-lz',), cost=None):
         self.name = name; self.harness = harness; self.units = list(units); self.models = list(models)
         self.defines = dict(defines or {}); self.unit_defines = dict(unit_defines or {})
@@ -42,7 +42,7 @@ class Ob:
         self.unwind = unwind; self.unwindset = list(unwindset); self.restrict = list(restrict)
         self.flags = list(flags); self.timeout = timeout; self.mem_gb = mem_gb; self.kfs = list(kfs)
         self.kf_cover = kf_cover; self.tier = tier; self.note = note; self.leak = leak
-        self.restrict_by = list(restrict_by); self.unwind_violation = unwind_violation; self.statement = statement; self.bounds = bounds
+        self.restrict_by = list(restrict_by); self.kf_only = kf_only; self.unwind_violation = unwind_violation; self.statement = statement; self.bounds = bounds
         self.expect_covers = expect_covers; self.solver = solver; self.object_bits = object_bits
         self.malloc_may_fail = malloc_may_fail; self.native_libs = list(native_libs)
         self.cost = cost if cost is not None else timeout
@@ -366,12 +366,16 @@ def decide(ob, prop_id, kf_db, log):
     open_kfs = [k for k in ob.kfs if k in kf_db and kf_db[k].get('status', 'open') == 'open']
     base = {kf_macro(k): 1 for k in open_kfs}
     variants = [('main', base, None)]
+    if ob.kf_only and open_kfs:
+        # the whole input class of this obligation IS the listed finding: nothing is left to verify once it is excluded,
+        # so only the re-demonstration runs; when the finding is marked fixed the obligation runs as an ordinary one
+        variants = []
     if ob.kf_cover:
         for k in open_kfs:
             d = dict(base); d[kf_macro(k)] = 2
             variants.append(('cover:' + k, d, k))
     worst = 'discharged'
-    with ThreadPoolExecutor(max_workers=len(variants)) as vex:
+    with ThreadPoolExecutor(max_workers=max(1, len(variants))) as vex:
         vres = list(vex.map(lambda v: run_query(ob, v[1]), variants))
     for (vname, defs, kid), (r, gb) in zip(variants, vres):
         q = {'variant': vname, 'status': r.status, 'seconds': r.seconds, 'properties': r.nprops, 'solver_stats': r.stats,
